@@ -234,7 +234,25 @@ def showWPc : WPc → String
 def showFut (f : Fut) : String :=
   s!"{f.key} {(f.res.map showRes).getD "-"} {f.upd} {showOptNat f.pred} {f.done}"
 
-/-- canonical rendering of the non-ghost part on the finite id sets of the scenario (state de-duplication) -/
+deriving instance Hashable for Res, Fut, Job, Plan, Out, CPc, WPc
+
+/-- fingerprint of the non-ghost part on the finite id sets of the scenario (state de-duplication; a 64-bit hash of
+    exactly the components `renderM` prints — a collision could only drop a model state, i.e. cause a false reject) -/
+def hashM (env : Env) (m : M) : UInt64 :=
+  let s := m.s
+  let h0 := mixHash (hash s.now) (mixHash (hash s.tickPending) (hash m.nextTick))
+  let h1 := m.active.foldl (fun h c => mixHash h (mixHash (hash c) (hash (s.cpc c)))) h0
+  let h2 := (List.range env.cfg.P).foldl (fun h w => mixHash h (hash (s.wpc w))) h1
+  let h3 := (List.range s.nfut).foldl (fun h f =>
+    let x := s.fut f
+    mixHash h (mixHash (hash x.key) (mixHash (hash x.res) (mixHash (hash x.upd) (mixHash (hash x.pred) (hash x.done)))))) h2
+  let h4 := (List.range env.sc.keys.length).foldl (fun h k => mixHash h (hash (s.map k))) h3
+  let h5 := (List.range env.cfg.S).foldl (fun h i => mixHash h (hash (s.lock i))) h4
+  let h6 := s.chan.foldl (fun h j => mixHash h (hash j)) h5
+  let h7 := m.seen.foldl (fun h f => mixHash h (hash f)) (mixHash h6 17)
+  m.invs.foldl (fun h (w, t, l) => mixHash h (mixHash (hash w) (mixHash (hash t) (hash l)))) (mixHash h7 23)
+
+/-- canonical rendering of the non-ghost part on the finite id sets of the scenario (debugging aid) -/
 def renderM (env : Env) (m : M) : String :=
   let s := m.s
   let cs := m.active.map (fun c => s!"{c}:{showCPc (s.cpc c)}")
@@ -268,6 +286,13 @@ def compact (env : Env) (m : M) : M :=
       wpc := tabOf aWpc .idle
       jobAt := tabOf aJob .nowhere }
   { m with s := s' }
+
+/-- after a sweep step only the map needs flattening (`sweepShard` wraps the previous map in a closure that looks the
+    old entry up twice; nested sweeps would otherwise cost 2^depth per look-up) -/
+def compactMap (env : Env) (m : M) : M :=
+  let s := m.s
+  let aMap := (Array.range env.sc.keys.length).map s.map
+  { m with s := { s with map := tabOf aMap none } }
 
 def isRetPc (s : State) : CPc → Bool
   | .ldRet _ | .retNil | .setRet => true
@@ -306,7 +331,7 @@ def eagerOnce (env : Env) (m : M) : Option M :=
   -- the sweep
   (firstSome ws (fun w =>
     match s.wpc w with
-    | .sweep _ => (wkStep cfg s w).map (fun s' => { m with s := s' })
+    | .sweep _ => (wkStep cfg s w).map (fun s' => compactMap env { m with s := s' })
     | _ => none))
 
 def normalize (env : Env) : Nat → M → M
@@ -330,10 +355,10 @@ def branchSteps (env : Env) (m : M) : List M :=
     | _ => none)
   cs ++ ws
 
-abbrev MSet := List (String × M)
+abbrev MSet := List (UInt64 × M)
 
 def insertM (env : Env) (set : MSet) (m : M) : MSet × Bool :=
-  let key := renderM env m
+  let key := hashM env m
   if set.any (fun (k, _) => k == key) then (set, false) else (set ++ [(key, m)], true)
 
 /-- all states reachable by unobserved steps (breadth first, de-duplicated) -/
@@ -390,7 +415,7 @@ def advance (env : Env) (t : Nat) : Nat → M → M
     if env.tickEvery > 0 && m.nextTick < t then
       let d := m.nextTick - m.s.now
       let s' := step env.cfg m.s (.delay d)
-      advance env t fuel (normalize env normFuel { m with s := s' })
+      advance env t fuel (compact env (normalize env normFuel { m with s := s' }))
     else
       let s' := step env.cfg m.s (.delay (t - m.s.now))
       normalize env normFuel (compact env { m with s := s' })
@@ -551,14 +576,16 @@ def processEvent (env : Env) (acc : Acc) (tev : Nat × Ev) : Acc :=
           fail s!"t={t}: {why}"
         | _ =>
           -- de-duplicate
-          let keys := oks.map (renderM env)
-          let ded := (oks.zip keys).foldl (fun (acc : List (String × M)) (m, k) =>
+          let keys := oks.map (hashM env)
+          let ded := (oks.zip keys).foldl (fun (acc : List (UInt64 × M)) (m, k) =>
             if acc.any (fun (k', _) => k' == k) then acc else acc ++ [(k, m)]) []
           { acc with set := ded.map (·.2), nev := acc.nev + 1, maxSet := max acc.maxSet cl.length }
 
-def shardOfKeys (S : Nat) (keys : List String) : Nat → Nat :=
-  let arr := keys.toArray.map (fun k => match parseKey? k with | some tk => (shardIndex S tk).toNat | none => 0)
-  fun k => arr.getD k 0
+/-- shard index of every key id, computed once per scenario (the table is captured by the partial application) -/
+def shardTable (S : Nat) (keys : List String) : Array Nat :=
+  keys.toArray.map (fun k => match parseKey? k with | some tk => (shardIndex S tk).toNat | none => 0)
+
+def shardLookup (arr : Array Nat) (k : Nat) : Nat := arr.getD k 0
 
 def monitorScen (script impl : String) : String :=
   match parseScen script with
@@ -570,7 +597,8 @@ def monitorScen (script impl : String) : String :=
       match (kvOf "S=" (words head)).bind (·.toNat?) with
       | none => s!"reject observation has no S= header: {head}"
       | some S =>
-        let cfg : Cfg := { P := sc.P, J := sc.J, S := S, En := sc.En, Ee := sc.Ee, shardOf := shardOfKeys S sc.keys }
+        let shards := shardTable S sc.keys
+        let cfg : Cfg := { P := sc.P, J := sc.J, S := S, En := sc.En, Ee := sc.Ee, shardOf := shardLookup shards }
         let maxCid := sc.calls.foldl (fun a c => max a c.cid) 0
         let env : Env := { cfg := cfg, sc := sc, tickEvery := tickFactor * sc.En, maxCid := maxCid }
         let m0 : M := { s := init, seen := [], nextTick := env.tickEvery, invs := [], active := [] }
